@@ -1,4 +1,953 @@
 import LcModel.Index.Model
 /-! helper lemmas for the Index layer -/
 namespace Index
+
+/-! ## association lists -/
+
+section Assoc
+variable {κ ν : Type} [DecidableEq κ]
+
+theorem lookup_nil (k : κ) : lookup ([] : List (κ × ν)) k = none := rfl
+
+theorem lookup_cons (a : κ × ν) (l : List (κ × ν)) (k : κ) :
+    lookup (a :: l) k = if a.1 = k then some a.2 else lookup l k := by
+  unfold lookup
+  rw [List.find?_cons]
+  by_cases h : a.1 = k <;> simp [h]
+
+theorem lookup_del (l : List (κ × ν)) (k k' : κ) :
+    lookup (del l k) k' = if k' = k then none else lookup l k' := by
+  induction l with
+  | nil => simp [del, lookup]
+  | cons a l ih =>
+    unfold del at ih ⊢
+    rw [List.filter_cons]
+    by_cases h : a.1 = k
+    · simp only [h, ne_eq, not_true_eq_false, decide_false, Bool.false_eq_true, ↓reduceIte]
+      rw [ih, lookup_cons]
+      by_cases h' : k' = k
+      · simp [h']
+      · have : ¬ a.1 = k' := fun e => h' (e ▸ h)
+        simp [h', this]
+    · simp only [ne_eq, h, not_false_eq_true, decide_true, ↓reduceIte]
+      rw [lookup_cons, lookup_cons, ih]
+      by_cases h' : k' = k
+      · subst h'
+        simp [h]
+      · simp [h']
+
+theorem lookup_append (l1 l2 : List (κ × ν)) (k : κ) :
+    lookup (l1 ++ l2) k = (lookup l1 k).or (lookup l2 k) := by
+  induction l1 with
+  | nil => simp [lookup_nil]
+  | cons a l ih =>
+    rw [List.cons_append, lookup_cons, lookup_cons, ih]
+    by_cases h : a.1 = k <;> simp [h]
+
+theorem lookup_put (l : List (κ × ν)) (k : κ) (v : ν) (k' : κ) :
+    lookup (put l k v) k' = if k' = k then some v else lookup l k' := by
+  have h := lookup_del l k k'
+  unfold del at h
+  unfold put
+  rw [lookup_append, h, lookup_cons, lookup_nil]
+  by_cases h' : k' = k
+  · simp [h']
+  · have : ¬ k = k' := fun e => h' e.symm
+    simp [h', this]
+
+/-- one write to an association list: `some v` = put, `none` = delete -/
+def applyW (l : List (κ × ν)) (w : κ × Option ν) : List (κ × ν) :=
+  match w.2 with
+  | some v => put l w.1 v
+  | none => del l w.1
+
+theorem lookup_applyW (l : List (κ × ν)) (w : κ × Option ν) (k : κ) :
+    lookup (applyW l w) k = if k = w.1 then w.2 else lookup l k := by
+  obtain ⟨wk, wv⟩ := w
+  cases wv with
+  | none => simp [applyW, lookup_del]
+  | some v => simp [applyW, lookup_put]
+
+/-- no write mentions `k`: its binding is unchanged -/
+theorem lookup_foldl_applyW_unch (ws : List (κ × Option ν)) (l : List (κ × ν)) (k : κ)
+    (h : ∀ w ∈ ws, w.1 ≠ k) : lookup (ws.foldl applyW l) k = lookup l k := by
+  induction ws generalizing l with
+  | nil => rfl
+  | cons w ws ih =>
+    rw [List.foldl_cons, ih _ (fun w' hw' => h w' (List.mem_cons_of_mem _ hw')), lookup_applyW]
+    have := h w List.mem_cons_self
+    have : ¬ k = w.1 := fun e => this e.symm
+    simp [this]
+
+/-- every write that mentions `k` writes `v`, and there is one: the binding is `v` -/
+theorem lookup_foldl_applyW_const (ws : List (κ × Option ν)) (l : List (κ × ν)) (k : κ)
+    (v : Option ν) (hex : (k, v) ∈ ws) (hall : ∀ w ∈ ws, w.1 = k → w.2 = v) :
+    lookup (ws.foldl applyW l) k = v := by
+  induction ws generalizing l with
+  | nil => simp at hex
+  | cons w ws ih =>
+    rw [List.foldl_cons]
+    by_cases hr : ∃ w' ∈ ws, w'.1 = k
+    · obtain ⟨w', hw', hk'⟩ := hr
+      have hv : w'.2 = v := hall w' (List.mem_cons_of_mem _ hw') hk'
+      have : (k, v) ∈ ws := by
+        have : w' = (k, v) := Prod.ext hk' hv
+        exact this ▸ hw'
+      exact ih _ this (fun w'' hw'' => hall w'' (List.mem_cons_of_mem _ hw''))
+    · have hr' : ∀ w' ∈ ws, w'.1 ≠ k := fun w' hw' hk' => hr ⟨w', hw', hk'⟩
+      rw [lookup_foldl_applyW_unch ws _ k hr', lookup_applyW]
+      have hw : w = (k, v) := by
+        rcases List.mem_cons.mp hex with e | e
+        · exact e.symm
+        · exact absurd rfl (hr' _ e)
+      simp [hw]
+
+end Assoc
+
+/-! ## lists -/
+
+theorem rev_ind {α} {P : List α → Prop} (h0 : P []) (hs : ∀ l a, P l → P (l ++ [a]))
+    (l : List α) : P l := by
+  have : ∀ r : List α, P r.reverse := by
+    intro r
+    induction r with
+    | nil => simpa
+    | cons a r ih => rw [List.reverse_cons]; exact hs _ _ ih
+  simpa using this l.reverse
+
+theorem getElem?_eq_some_iff_split {α} (l : List α) (i : Nat) (x : α) :
+    l[i]? = some x ↔ ∃ pre post, l = pre ++ x :: post ∧ pre.length = i := by
+  constructor
+  · intro h
+    induction l generalizing i with
+    | nil => simp at h
+    | cons a l ih =>
+      cases i with
+      | zero =>
+        simp at h
+        exact ⟨[], l, by simp [h], rfl⟩
+      | succ i =>
+        simp at h
+        obtain ⟨pre, post, e, hl⟩ := ih i h
+        exact ⟨a :: pre, post, by simp [e], by simp [hl]⟩
+  · rintro ⟨pre, post, rfl, rfl⟩
+    simp
+
+theorem mem_enum {α} (l : List α) (i : Nat) (x : α) : (i, x) ∈ enum l ↔ l[i]? = some x := by
+  unfold enum
+  rw [List.mem_iff_getElem?]
+  constructor
+  · rintro ⟨j, hj⟩
+    rw [List.getElem?_zip_eq_some] at hj
+    obtain ⟨h1, h2⟩ := hj
+    simp only at h1 h2
+    have hlt : j < l.length := by
+      rcases Nat.lt_or_ge j l.length with h | h
+      · exact h
+      · rw [List.getElem?_eq_none (by simpa using h)] at h1; simp at h1
+    rw [List.getElem?_range hlt] at h1
+    have : j = i := by simpa using h1
+    exact this ▸ h2
+  · intro h
+    refine ⟨i, ?_⟩
+    rw [List.getElem?_zip_eq_some]
+    have hlt : i < l.length := by
+      obtain ⟨hh, _⟩ := List.getElem?_eq_some_iff.mp h
+      exact hh
+    exact ⟨by simp [List.getElem?_range hlt], h⟩
+
+/-! ## operations as writes -/
+
+def cellW : Op → Option (CellKey × Option Nat)
+  | .putCell k h => some (k, some h)
+  | .delCell k => some (k, none)
+  | _ => none
+
+def histW : Op → Option (HistKey × Option Nat)
+  | .putHist k h => some (k, some h)
+  | .delHist k => some (k, none)
+  | _ => none
+
+def txW : Op → Option (Nat × Option TxRec)
+  | .putTx h r => some (h, some r)
+  | _ => none
+
+theorem foldl_applyOp_cells (ops : List Op) (s : St) :
+    (ops.foldl applyOp s).cells = (ops.filterMap cellW).foldl applyW s.cells := by
+  induction ops generalizing s with
+  | nil => rfl
+  | cons op ops ih =>
+    rw [List.foldl_cons, ih]
+    cases op <;> first | rfl | simp [applyOp, cellW, applyW, List.filterMap_cons]
+
+theorem foldl_applyOp_hist (ops : List Op) (s : St) :
+    (ops.foldl applyOp s).hist = (ops.filterMap histW).foldl applyW s.hist := by
+  induction ops generalizing s with
+  | nil => rfl
+  | cons op ops ih =>
+    rw [List.foldl_cons, ih]
+    cases op <;> first | rfl | simp [applyOp, histW, applyW, List.filterMap_cons]
+
+theorem foldl_applyOp_txs (ops : List Op) (s : St) :
+    (ops.foldl applyOp s).txs = (ops.filterMap txW).foldl applyW s.txs := by
+  induction ops generalizing s with
+  | nil => rfl
+  | cons op ops ih =>
+    rw [List.foldl_cons, ih]
+    cases op <;> first | rfl | simp [applyOp, txW, applyW, List.filterMap_cons]
+
+theorem foldl_applyOp_scripts (ops : List Op) (s : St) (h : ∀ k bn, Op.putScript k bn ∉ ops) :
+    (ops.foldl applyOp s).scripts = s.scripts := by
+  induction ops generalizing s with
+  | nil => rfl
+  | cons op ops ih =>
+    rw [List.foldl_cons, ih _ (fun k bn hm => h k bn (List.mem_cons_of_mem _ hm))]
+    cases op <;> simp [applyOp]
+    exact absurd List.mem_cons_self (h _ _)
+
+theorem mem_filterMap_cellW {ops : List Op} {w : CellKey × Option Nat} :
+    w ∈ ops.filterMap cellW ↔
+      (∃ h, w.2 = some h ∧ Op.putCell w.1 h ∈ ops) ∨ (w.2 = none ∧ Op.delCell w.1 ∈ ops) := by
+  rw [List.mem_filterMap]
+  constructor
+  · rintro ⟨op, hop, e⟩
+    cases op <;> simp [cellW] at e
+    · subst e; exact Or.inl ⟨_, rfl, hop⟩
+    · subst e; exact Or.inr ⟨rfl, hop⟩
+  · obtain ⟨k, v⟩ := w
+    rintro (⟨h, e, hop⟩ | ⟨e, hop⟩)
+    · simp only at e hop; subst e; exact ⟨_, hop, rfl⟩
+    · simp only at e hop; subst e; exact ⟨_, hop, rfl⟩
+
+theorem mem_filterMap_histW {ops : List Op} {w : HistKey × Option Nat} :
+    w ∈ ops.filterMap histW ↔
+      (∃ h, w.2 = some h ∧ Op.putHist w.1 h ∈ ops) ∨ (w.2 = none ∧ Op.delHist w.1 ∈ ops) := by
+  rw [List.mem_filterMap]
+  constructor
+  · rintro ⟨op, hop, e⟩
+    cases op <;> simp [histW] at e
+    · subst e; exact Or.inl ⟨_, rfl, hop⟩
+    · subst e; exact Or.inr ⟨rfl, hop⟩
+  · obtain ⟨k, v⟩ := w
+    rintro (⟨h, e, hop⟩ | ⟨e, hop⟩)
+    · simp only at e hop; subst e; exact ⟨_, hop, rfl⟩
+    · simp only at e hop; subst e; exact ⟨_, hop, rfl⟩
+
+theorem mem_filterMap_txW {ops : List Op} {w : Nat × Option TxRec} :
+    w ∈ ops.filterMap txW ↔ ∃ r, w.2 = some r ∧ Op.putTx w.1 r ∈ ops := by
+  rw [List.mem_filterMap]
+  constructor
+  · rintro ⟨op, hop, e⟩
+    cases op <;> simp [txW] at e
+    subst e; exact ⟨_, rfl, hop⟩
+  · obtain ⟨k, v⟩ := w
+    rintro ⟨h, e, hop⟩
+    simp only at e hop; subst e; exact ⟨_, hop, rfl⟩
+
+/-! ### last-writer lemmas per keyspace -/
+
+theorem cells_lookup_unch (ops : List Op) (s : St) (k : CellKey)
+    (hp : ∀ h, Op.putCell k h ∉ ops) (hd : Op.delCell k ∉ ops) :
+    lookup (ops.foldl applyOp s).cells k = lookup s.cells k := by
+  rw [foldl_applyOp_cells]
+  apply lookup_foldl_applyW_unch
+  intro w hw e
+  rcases mem_filterMap_cellW.mp hw with ⟨h, _, hop⟩ | ⟨_, hop⟩
+  · exact hp h (e ▸ hop)
+  · exact hd (e ▸ hop)
+
+theorem cells_lookup_put (ops : List Op) (s : St) (k : CellKey) (h : Nat)
+    (hex : Op.putCell k h ∈ ops) (hp : ∀ h', Op.putCell k h' ∈ ops → h' = h)
+    (hd : Op.delCell k ∉ ops) :
+    lookup (ops.foldl applyOp s).cells k = some h := by
+  rw [foldl_applyOp_cells]
+  apply lookup_foldl_applyW_const
+  · exact mem_filterMap_cellW.mpr (Or.inl ⟨h, rfl, hex⟩)
+  · intro w hw e
+    rcases mem_filterMap_cellW.mp hw with ⟨h', e', hop⟩ | ⟨_, hop⟩
+    · rw [e', hp h' (e ▸ hop)]
+    · exact absurd (e ▸ hop) hd
+
+theorem cells_lookup_del (ops : List Op) (s : St) (k : CellKey)
+    (hex : Op.delCell k ∈ ops) (hp : ∀ h', Op.putCell k h' ∉ ops) :
+    lookup (ops.foldl applyOp s).cells k = none := by
+  rw [foldl_applyOp_cells]
+  apply lookup_foldl_applyW_const
+  · exact mem_filterMap_cellW.mpr (Or.inr ⟨rfl, hex⟩)
+  · intro w hw e
+    rcases mem_filterMap_cellW.mp hw with ⟨h', _, hop⟩ | ⟨e', _⟩
+    · exact absurd (e ▸ hop) (hp h')
+    · exact e'
+
+theorem hist_lookup_unch (ops : List Op) (s : St) (k : HistKey)
+    (hp : ∀ h, Op.putHist k h ∉ ops) (hd : Op.delHist k ∉ ops) :
+    lookup (ops.foldl applyOp s).hist k = lookup s.hist k := by
+  rw [foldl_applyOp_hist]
+  apply lookup_foldl_applyW_unch
+  intro w hw e
+  rcases mem_filterMap_histW.mp hw with ⟨h, _, hop⟩ | ⟨_, hop⟩
+  · exact hp h (e ▸ hop)
+  · exact hd (e ▸ hop)
+
+theorem hist_lookup_put (ops : List Op) (s : St) (k : HistKey) (h : Nat)
+    (hex : Op.putHist k h ∈ ops) (hp : ∀ h', Op.putHist k h' ∈ ops → h' = h)
+    (hd : Op.delHist k ∉ ops) :
+    lookup (ops.foldl applyOp s).hist k = some h := by
+  rw [foldl_applyOp_hist]
+  apply lookup_foldl_applyW_const
+  · exact mem_filterMap_histW.mpr (Or.inl ⟨h, rfl, hex⟩)
+  · intro w hw e
+    rcases mem_filterMap_histW.mp hw with ⟨h', e', hop⟩ | ⟨_, hop⟩
+    · rw [e', hp h' (e ▸ hop)]
+    · exact absurd (e ▸ hop) hd
+
+theorem txs_lookup_unch (ops : List Op) (s : St) (k : Nat)
+    (hp : ∀ r, Op.putTx k r ∉ ops) :
+    lookup (ops.foldl applyOp s).txs k = lookup s.txs k := by
+  rw [foldl_applyOp_txs]
+  apply lookup_foldl_applyW_unch
+  intro w hw e
+  obtain ⟨r, _, hop⟩ := mem_filterMap_txW.mp hw
+  exact hp r (e ▸ hop)
+
+theorem txs_lookup_put (ops : List Op) (s : St) (k : Nat) (r : TxRec)
+    (hex : Op.putTx k r ∈ ops) (hp : ∀ r', Op.putTx k r' ∈ ops → r' = r) :
+    lookup (ops.foldl applyOp s).txs k = some r := by
+  rw [foldl_applyOp_txs]
+  apply lookup_foldl_applyW_const
+  · exact mem_filterMap_txW.mpr ⟨r, rfl, hex⟩
+  · intro w hw e
+    obtain ⟨r', e', hop⟩ := mem_filterMap_txW.mp hw
+    rw [e', hp r' (e ▸ hop)]
+
+/-! ## the batch of `filter_block` -/
+
+/-- script `k` is the lock script (`isType = false`) or the type script of output `o` -/
+def Touches (k : SKey) (o : Output) : Prop :=
+  k = ⟨o.lock, false⟩ ∨ ∃ t, o.type_ = some t ∧ k = ⟨t, true⟩
+
+theorem registered_iff (s : St) (k : SKey) : registered s k = true ↔ k ∈ s.scripts.map (·.1) := by
+  unfold registered
+  simp only [List.any_eq_true, decide_eq_true_eq, List.mem_map]
+
+/-- the three writes of a spent cell -/
+def IsInOp (k : SKey) (p : TxRec) (bn txi ii : Nat) (tx : Tx) (i : OutPt) (op : Op) : Prop :=
+  op = .delCell ⟨k, p.bn, p.txi, i.idx⟩ ∨ op = .putHist ⟨k, bn, txi, ii, false⟩ tx.hash ∨
+    op = .putTx tx.hash ⟨bn, txi, tx⟩
+
+/-- the three writes of a created cell -/
+def IsOutOp (k : SKey) (bn txi oi : Nat) (tx : Tx) (op : Op) : Prop :=
+  op = .putCell ⟨k, bn, txi, oi⟩ tx.hash ∨ op = .putHist ⟨k, bn, txi, oi, true⟩ tx.hash ∨
+    op = .putTx tx.hash ⟨bn, txi, tx⟩
+
+theorem mem_inputOps (s : St) (bn txi ii : Nat) (tx : Tx) (i : OutPt) (prev : Option TxRec)
+    (op : Op) :
+    op ∈ inputOps s bn txi ii tx i prev ↔
+      ∃ p o k, prev = some p ∧ p.tx.outputs[i.idx]? = some o ∧ Touches k o ∧
+        registered s k = true ∧ IsInOp k p bn txi ii tx i op := by
+  unfold inputOps
+  cases prev with
+  | none => simp
+  | some p =>
+    simp only
+    cases ho : p.tx.outputs[i.idx]? with
+    | none =>
+      simp only [List.not_mem_nil, false_iff]
+      rintro ⟨p', o', k, hp, ho', _⟩
+      cases hp
+      rw [ho] at ho'
+      cases ho'
+    | some o =>
+      simp only [List.mem_append]
+      constructor
+      · rintro (h | h)
+        · split at h
+          · rename_i hr
+            refine ⟨p, o, ⟨o.lock, false⟩, rfl, ho, Or.inl rfl, hr, ?_⟩
+            simpa [IsInOp] using h
+          · simp at h
+        · split at h
+          · rename_i t ht
+            split at h
+            · rename_i hr
+              refine ⟨p, o, ⟨t, true⟩, rfl, ho, Or.inr ⟨t, ht, rfl⟩, hr, ?_⟩
+              simpa [IsInOp] using h
+            · simp at h
+          · simp at h
+      · rintro ⟨p', o', k, hp, ho', ht, hr, hop⟩
+        cases hp
+        rw [ho] at ho'
+        cases ho'
+        rcases ht with rfl | ⟨t, ht, rfl⟩
+        · left
+          rw [if_pos hr]
+          simpa [IsInOp] using hop
+        · right
+          rw [ht]
+          simp only
+          rw [if_pos hr]
+          simpa [IsInOp] using hop
+
+theorem mem_outputOps (s : St) (bn txi oi : Nat) (tx : Tx) (o : Output) (op : Op) :
+    op ∈ outputOps s bn txi oi tx o ↔
+      ∃ k, Touches k o ∧ registered s k = true ∧ IsOutOp k bn txi oi tx op := by
+  unfold outputOps
+  simp only [List.mem_append]
+  constructor
+  · rintro (h | h)
+    · split at h
+      · rename_i hr
+        refine ⟨⟨o.lock, false⟩, Or.inl rfl, hr, ?_⟩
+        simpa [IsOutOp] using h
+      · simp at h
+    · split at h
+      · rename_i t ht
+        split at h
+        · rename_i hr
+          refine ⟨⟨t, true⟩, Or.inr ⟨t, ht, rfl⟩, hr, ?_⟩
+          simpa [IsOutOp] using h
+        · simp at h
+      · simp at h
+  · rintro ⟨k, ht, hr, hop⟩
+    rcases ht with rfl | ⟨t, ht, rfl⟩
+    · left
+      rw [if_pos hr]
+      simpa [IsOutOp] using hop
+    · right
+      rw [ht]
+      simp only
+      rw [if_pos hr]
+      simpa [IsOutOp] using hop
+
+/-- the creating transaction as `filter_block` finds it: store first, then this block -/
+def prevOf (s : St) (inB : List (Nat × TxRec)) (h : Nat) : Option TxRec :=
+  match lookup s.txs h with
+  | some r => some r
+  | none => lookup inB h
+
+def txIns (s : St) (bn txi : Nat) (inB : List (Nat × TxRec)) (tx : Tx) : List Op :=
+  (enum tx.inputs).flatMap (fun p => inputOps s bn txi p.1 tx p.2 (prevOf s inB p.2.tx))
+
+def txOuts (s : St) (bn txi : Nat) (tx : Tx) : List Op :=
+  (enum tx.outputs).flatMap (fun p => outputOps s bn txi p.1 tx p.2)
+
+theorem go_nil (s : St) (b : Block) (txi : Nat) (inB : List (Nat × TxRec)) :
+    blockOps.go s b txi inB [] = [] := rfl
+
+theorem go_cons (s : St) (b : Block) (txi : Nat) (inB : List (Nat × TxRec)) (tx : Tx)
+    (rest : List Tx) :
+    blockOps.go s b txi inB (tx :: rest) =
+      txIns s b.number txi inB tx ++ txOuts s b.number txi tx ++
+        blockOps.go s b (txi + 1) (put inB tx.hash ⟨b.number, txi, tx⟩) rest := rfl
+
+theorem mem_txIns (s : St) (bn txi : Nat) (inB : List (Nat × TxRec)) (tx : Tx) (op : Op) :
+    op ∈ txIns s bn txi inB tx ↔
+      ∃ ii i p o k, tx.inputs[ii]? = some i ∧ prevOf s inB i.tx = some p ∧
+        p.tx.outputs[i.idx]? = some o ∧ Touches k o ∧ registered s k = true ∧
+        IsInOp k p bn txi ii tx i op := by
+  unfold txIns
+  rw [List.mem_flatMap]
+  constructor
+  · rintro ⟨⟨ii, i⟩, hm, hop⟩
+    rw [mem_enum] at hm
+    rw [mem_inputOps] at hop
+    obtain ⟨p, o, k, h1, h2, h3, h4, h5⟩ := hop
+    exact ⟨ii, i, p, o, k, hm, h1, h2, h3, h4, h5⟩
+  · rintro ⟨ii, i, p, o, k, hm, h1, h2, h3, h4, h5⟩
+    refine ⟨(ii, i), (mem_enum _ _ _).mpr hm, ?_⟩
+    rw [mem_inputOps]
+    exact ⟨p, o, k, h1, h2, h3, h4, h5⟩
+
+theorem mem_txOuts (s : St) (bn txi : Nat) (tx : Tx) (op : Op) :
+    op ∈ txOuts s bn txi tx ↔
+      ∃ oi o k, tx.outputs[oi]? = some o ∧ Touches k o ∧ registered s k = true ∧
+        IsOutOp k bn txi oi tx op := by
+  unfold txOuts
+  rw [List.mem_flatMap]
+  constructor
+  · rintro ⟨⟨oi, o⟩, hm, hop⟩
+    rw [mem_enum] at hm
+    rw [mem_outputOps] at hop
+    obtain ⟨k, h3, h4, h5⟩ := hop
+    exact ⟨oi, o, k, hm, h3, h4, h5⟩
+  · rintro ⟨oi, o, k, hm, h3, h4, h5⟩
+    refine ⟨(oi, o), (mem_enum _ _ _).mpr hm, ?_⟩
+    rw [mem_outputOps]
+    exact ⟨k, h3, h4, h5⟩
+
+/-- the in-block transaction map after the transactions `l` (first index `txi`) -/
+def accB (bn : Nat) : Nat → List (Nat × TxRec) → List Tx → List (Nat × TxRec)
+  | _, inB, [] => inB
+  | txi, inB, tx :: rest => accB bn (txi + 1) (put inB tx.hash ⟨bn, txi, tx⟩) rest
+
+theorem go_append (s : St) (b : Block) (txi : Nat) (inB : List (Nat × TxRec)) (l1 l2 : List Tx) :
+    blockOps.go s b txi inB (l1 ++ l2) =
+      blockOps.go s b txi inB l1 ++
+        blockOps.go s b (txi + l1.length) (accB b.number txi inB l1) l2 := by
+  induction l1 generalizing txi inB with
+  | nil => simp [go_nil, accB]
+  | cons t l1 ih =>
+    rw [List.cons_append, go_cons, go_cons, ih]
+    simp only [accB, List.length_cons, List.append_assoc]
+    congr 4
+    omega
+
+/-- the batch, split at one transaction -/
+theorem blockOps_split (s : St) (b : Block) (tpre tpost : List Tx) (tx : Tx)
+    (hb : b.txs = tpre ++ tx :: tpost) :
+    blockOps s b =
+      blockOps.go s b 0 [] tpre ++
+        (txIns s b.number tpre.length (accB b.number 0 [] tpre) tx ++
+          (txOuts s b.number tpre.length tx ++
+            blockOps.go s b (tpre.length + 1)
+              (accB b.number 0 [] (tpre ++ [tx])) tpost)) := by
+  unfold blockOps
+  rw [hb, go_append, go_cons]
+  simp only [Nat.zero_add, List.append_assoc]
+  congr 3
+  have : ∀ (l : List Tx) (txi : Nat) (inB : List (Nat × TxRec)) (t : Tx),
+      accB b.number txi inB (l ++ [t]) =
+        put (accB b.number txi inB l) t.hash ⟨b.number, txi + l.length, t⟩ := by
+    intro l
+    induction l with
+    | nil => intro txi inB t; simp [accB]
+    | cons a l ih =>
+      intro txi inB t
+      simp only [List.cons_append, accB, ih, List.length_cons]
+      have : txi + 1 + l.length = txi + (l.length + 1) := by omega
+      rw [this]
+  rw [this]
+  simp
+
+theorem mem_go (s : St) (b : Block) (txi : Nat) (inB : List (Nat × TxRec)) (txs : List Tx)
+    (op : Op) :
+    op ∈ blockOps.go s b txi inB txs ↔
+      ∃ tpre tx tpost, txs = tpre ++ tx :: tpost ∧
+        (op ∈ txIns s b.number (txi + tpre.length) (accB b.number txi inB tpre) tx ∨
+         op ∈ txOuts s b.number (txi + tpre.length) tx) := by
+  induction txs generalizing txi inB with
+  | nil => simp [go_nil]
+  | cons t rest ih =>
+    rw [go_cons]
+    simp only [List.mem_append]
+    constructor
+    · rintro ((h | h) | h)
+      · exact ⟨[], t, rest, rfl, Or.inl (by simpa [accB] using h)⟩
+      · exact ⟨[], t, rest, rfl, Or.inr (by simpa using h)⟩
+      · obtain ⟨tpre, tx, tpost, e, h'⟩ := (ih _ _).mp h
+        refine ⟨t :: tpre, tx, tpost, by simp [e], ?_⟩
+        simp only [List.length_cons, accB]
+        have : txi + (tpre.length + 1) = txi + 1 + tpre.length := by omega
+        rw [this]
+        exact h'
+    · rintro ⟨tpre, tx, tpost, e, h'⟩
+      cases tpre with
+      | nil =>
+        simp only [List.nil_append, List.cons.injEq] at e
+        obtain ⟨rfl, rfl⟩ := e
+        simp only [List.length_nil, Nat.add_zero, accB] at h'
+        rcases h' with h' | h'
+        · exact Or.inl (Or.inl h')
+        · exact Or.inl (Or.inr h')
+      | cons a tpre =>
+        simp only [List.cons_append, List.cons.injEq] at e
+        obtain ⟨rfl, rfl⟩ := e
+        right
+        refine (ih _ _).mpr ⟨tpre, tx, tpost, rfl, ?_⟩
+        simp only [List.length_cons, accB] at h'
+        have : txi + (tpre.length + 1) = txi + 1 + tpre.length := by omega
+        rw [this] at h'
+        exact h'
+
+theorem mem_blockOps (s : St) (b : Block) (op : Op) :
+    op ∈ blockOps s b ↔
+      ∃ tpre tx tpost, b.txs = tpre ++ tx :: tpost ∧
+        (op ∈ txIns s b.number tpre.length (accB b.number 0 [] tpre) tx ∨
+         op ∈ txOuts s b.number tpre.length tx) := by
+  unfold blockOps
+  rw [mem_go]
+  simp
+
+/-! ### the in-block map -/
+
+theorem lookup_accB_sound (bn : Nat) (l : List Tx) (txi : Nat) (inB : List (Nat × TxRec))
+    (h : Nat) (r : TxRec) (hl : lookup (accB bn txi inB l) h = some r) :
+    (∃ tpre tx tpost, l = tpre ++ tx :: tpost ∧ tx.hash = h ∧ r = ⟨bn, txi + tpre.length, tx⟩) ∨
+      lookup inB h = some r := by
+  induction l generalizing txi inB with
+  | nil => exact Or.inr hl
+  | cons t rest ih =>
+    simp only [accB] at hl
+    rcases ih _ _ hl with ⟨tpre, tx, tpost, e, hh, hr⟩ | h'
+    · left
+      refine ⟨t :: tpre, tx, tpost, by simp [e], hh, ?_⟩
+      rw [hr]
+      simp only [List.length_cons]
+      have : txi + 1 + tpre.length = txi + (tpre.length + 1) := by omega
+      rw [this]
+    · rw [lookup_put] at h'
+      by_cases e : h = t.hash
+      · rw [if_pos e] at h'
+        left
+        exact ⟨[], t, rest, rfl, e.symm, by simpa using (Option.some.inj h').symm⟩
+      · rw [if_neg e] at h'
+        exact Or.inr h'
+
+theorem lookup_accB_notin (bn : Nat) (l : List Tx) (txi : Nat) (inB : List (Nat × TxRec))
+    (h : Nat) (hn : h ∉ l.map (·.hash)) :
+    lookup (accB bn txi inB l) h = lookup inB h := by
+  induction l generalizing txi inB with
+  | nil => rfl
+  | cons t rest ih =>
+    simp only [List.map_cons, List.mem_cons, not_or] at hn
+    simp only [accB]
+    rw [ih _ _ hn.2, lookup_put, if_neg hn.1]
+
+theorem lookup_accB_complete (bn : Nat) (tpre tpost : List Tx) (tx : Tx) (txi : Nat)
+    (inB : List (Nat × TxRec)) (hnd : ((tpre ++ tx :: tpost).map (·.hash)).Nodup) :
+    lookup (accB bn txi inB (tpre ++ tx :: tpost)) tx.hash = some ⟨bn, txi + tpre.length, tx⟩ := by
+  induction tpre generalizing txi inB with
+  | nil =>
+    simp only [List.nil_append, List.map_cons, List.nodup_cons] at hnd
+    simp only [List.nil_append, accB]
+    rw [lookup_accB_notin _ _ _ _ _ hnd.1, lookup_put]
+    simp
+  | cons a tpre ih =>
+    simp only [List.cons_append, List.map_cons, List.nodup_cons] at hnd
+    simp only [List.cons_append, accB, List.length_cons]
+    rw [ih _ _ hnd.2]
+    congr 2
+    omega
+
+/-! ### `filterBlock` as a fold -/
+
+theorem filterBlock_eq (s : St) (b : Block) :
+    ∃ hdr : List Op, (∀ op ∈ hdr, ∃ bn h, op = Op.putHeader bn h) ∧
+      filterBlock s b = (blockOps s b ++ hdr).foldl applyOp s := by
+  unfold filterBlock
+  by_cases h : (blockOps s b).isEmpty
+  · exact ⟨[], by simp, by simp [h]⟩
+  · refine ⟨[.putHeader b.number b.hash], ?_, by simp [h]⟩
+    intro op hop
+    exact ⟨_, _, by simpa using hop⟩
+
+/-! ### the writes of one transaction of the batch -/
+
+/-- `op` is a write of transaction `tx`, which follows the transactions `tpre` in block `b` -/
+def TxOp (s : St) (b : Block) (tpre : List Tx) (tx : Tx) (op : Op) : Prop :=
+  op ∈ txIns s b.number tpre.length (accB b.number 0 [] tpre) tx ∨
+    op ∈ txOuts s b.number tpre.length tx
+
+theorem mem_blockOps' (s : St) (b : Block) (op : Op) :
+    op ∈ blockOps s b ↔ ∃ tpre tx tpost, b.txs = tpre ++ tx :: tpost ∧ TxOp s b tpre tx op :=
+  mem_blockOps s b op
+
+theorem accB_append (bn : Nat) (l1 l2 : List Tx) (txi : Nat) (inB : List (Nat × TxRec)) :
+    accB bn txi inB (l1 ++ l2) = accB bn (txi + l1.length) (accB bn txi inB l1) l2 := by
+  induction l1 generalizing txi inB with
+  | nil => simp [accB]
+  | cons a l1 ih =>
+    simp only [List.cons_append, accB, ih, List.length_cons]
+    have : txi + 1 + l1.length = txi + (l1.length + 1) := by omega
+    rw [this]
+
+/-- the writes of the transactions after `tx` -/
+theorem mem_go_post (s : St) (b : Block) (tpre tpost : List Tx) (tx : Tx) (op : Op) :
+    op ∈ blockOps.go s b (tpre.length + 1) (accB b.number 0 [] (tpre ++ [tx])) tpost ↔
+      ∃ a tx' c, tpost = a ++ tx' :: c ∧ TxOp s b (tpre ++ tx :: a) tx' op := by
+  rw [mem_go]
+  have hlen : ∀ a : List Tx, tpre.length + 1 + a.length = (tpre ++ tx :: a).length := by
+    intro a; simp; omega
+  have hacc : ∀ a : List Tx,
+      accB b.number (tpre.length + 1) (accB b.number 0 [] (tpre ++ [tx])) a =
+        accB b.number 0 [] (tpre ++ tx :: a) := by
+    intro a
+    have := accB_append b.number (tpre ++ [tx]) a 0 []
+    simp only [List.append_assoc, List.singleton_append, Nat.zero_add, List.length_append,
+      List.length_cons, List.length_nil] at this
+    rw [this]
+  constructor
+  · rintro ⟨a, tx', c, e, h⟩
+    refine ⟨a, tx', c, e, ?_⟩
+    unfold TxOp
+    rw [← hlen, ← hacc]
+    exact h
+  · rintro ⟨a, tx', c, e, h⟩
+    refine ⟨a, tx', c, e, ?_⟩
+    unfold TxOp at h
+    rw [← hlen, ← hacc] at h
+    exact h
+
+theorem txOp_kinds {s : St} {b : Block} {tpre : List Tx} {tx : Tx} {op : Op}
+    (h : TxOp s b tpre tx op) :
+    (∃ k h, op = .putCell k h) ∨ (∃ k, op = .delCell k) ∨ (∃ k h, op = .putHist k h) ∨
+      (∃ h r, op = .putTx h r) := by
+  rcases h with h | h
+  · obtain ⟨ii, i, p, o, k, _, _, _, _, _, h | h | h⟩ := (mem_txIns _ _ _ _ _ _).mp h
+    · exact Or.inr (Or.inl ⟨_, h⟩)
+    · exact Or.inr (Or.inr (Or.inl ⟨_, _, h⟩))
+    · exact Or.inr (Or.inr (Or.inr ⟨_, _, h⟩))
+  · obtain ⟨oi, o, k, _, _, _, h | h | h⟩ := (mem_txOuts _ _ _ _ _).mp h
+    · exact Or.inl ⟨_, _, h⟩
+    · exact Or.inr (Or.inr (Or.inl ⟨_, _, h⟩))
+    · exact Or.inr (Or.inr (Or.inr ⟨_, _, h⟩))
+
+theorem blockOps_kinds {s : St} {b : Block} {op : Op} (h : op ∈ blockOps s b) :
+    (∃ k h, op = .putCell k h) ∨ (∃ k, op = .delCell k) ∨ (∃ k h, op = .putHist k h) ∨
+      (∃ h r, op = .putTx h r) := by
+  obtain ⟨_, _, _, _, h⟩ := (mem_blockOps' _ _ _).mp h
+  exact txOp_kinds h
+
+theorem txOp_putCell (s : St) (b : Block) (tpre : List Tx) (tx : Tx) (ck : CellKey) (h : Nat) :
+    TxOp s b tpre tx (.putCell ck h) ↔
+      tx.hash = h ∧ ck.bn = b.number ∧ ck.txi = tpre.length ∧
+        ∃ o, tx.outputs[ck.oi]? = some o ∧ Touches ck.s o ∧ registered s ck.s = true := by
+  unfold TxOp
+  rw [mem_txIns, mem_txOuts]
+  constructor
+  · rintro (⟨ii, i, p, o, k, _, _, _, _, _, h⟩ | ⟨oi, o, k, ho, ht, hr, h⟩)
+    · simp [IsInOp] at h
+    · simp only [IsOutOp, Op.putCell.injEq, reduceCtorEq, or_false] at h
+      obtain ⟨rfl, rfl⟩ := h
+      exact ⟨rfl, rfl, rfl, o, ho, ht, hr⟩
+  · rintro ⟨rfl, h1, h2, o, ho, ht, hr⟩
+    right
+    refine ⟨ck.oi, o, ck.s, ho, ht, hr, Or.inl ?_⟩
+    cases ck
+    simp_all
+
+theorem txOp_delCell (s : St) (b : Block) (tpre : List Tx) (tx : Tx) (ck : CellKey) :
+    TxOp s b tpre tx (.delCell ck) ↔
+      ∃ (ii : Nat) (i : OutPt) (p : TxRec) (o : Output), tx.inputs[ii]? = some i ∧
+        prevOf s (accB b.number 0 [] tpre) i.tx = some p ∧ p.tx.outputs[i.idx]? = some o ∧
+        Touches ck.s o ∧ registered s ck.s = true ∧ ck.bn = p.bn ∧ ck.txi = p.txi ∧
+        ck.oi = i.idx := by
+  unfold TxOp
+  rw [mem_txIns, mem_txOuts]
+  constructor
+  · rintro (⟨ii, i, p, o, k, hi, hp, ho, ht, hr, h⟩ | ⟨oi, o, k, _, _, _, h⟩)
+    · simp only [IsInOp, Op.delCell.injEq, reduceCtorEq, or_false] at h
+      subst h
+      exact ⟨ii, i, p, o, hi, hp, ho, ht, hr, rfl, rfl, rfl⟩
+    · simp [IsOutOp] at h
+  · rintro ⟨ii, i, p, o, hi, hp, ho, ht, hr, h1, h2, h3⟩
+    left
+    refine ⟨ii, i, p, o, ck.s, hi, hp, ho, ht, hr, Or.inl ?_⟩
+    cases ck
+    simp_all
+
+theorem txOp_putHist (s : St) (b : Block) (tpre : List Tx) (tx : Tx) (hk : HistKey) (h : Nat) :
+    TxOp s b tpre tx (.putHist hk h) ↔
+      tx.hash = h ∧ hk.bn = b.number ∧ hk.txi = tpre.length ∧
+        ((hk.isOutput = false ∧ ∃ (i : OutPt) (p : TxRec) (o : Output), tx.inputs[hk.ioi]? = some i ∧
+            prevOf s (accB b.number 0 [] tpre) i.tx = some p ∧ p.tx.outputs[i.idx]? = some o ∧
+            Touches hk.s o ∧ registered s hk.s = true) ∨
+         (hk.isOutput = true ∧ ∃ o, tx.outputs[hk.ioi]? = some o ∧ Touches hk.s o ∧
+            registered s hk.s = true)) := by
+  unfold TxOp
+  rw [mem_txIns, mem_txOuts]
+  constructor
+  · rintro (⟨ii, i, p, o, k, hi, hp, ho, ht, hr, h⟩ | ⟨oi, o, k, ho, ht, hr, h⟩)
+    · simp only [IsInOp, Op.putHist.injEq, reduceCtorEq, false_or, or_false] at h
+      obtain ⟨rfl, rfl⟩ := h
+      exact ⟨rfl, rfl, rfl, Or.inl ⟨rfl, i, p, o, hi, hp, ho, ht, hr⟩⟩
+    · simp only [IsOutOp, Op.putHist.injEq, reduceCtorEq, false_or, or_false] at h
+      obtain ⟨rfl, rfl⟩ := h
+      exact ⟨rfl, rfl, rfl, Or.inr ⟨rfl, o, ho, ht, hr⟩⟩
+  · rintro ⟨rfl, h1, h2, ⟨h3, i, p, o, hi, hp, ho, ht, hr⟩ | ⟨h3, o, ho, ht, hr⟩⟩
+    · left
+      refine ⟨hk.ioi, i, p, o, hk.s, hi, hp, ho, ht, hr, Or.inr (Or.inl ?_)⟩
+      cases hk
+      simp_all
+    · right
+      refine ⟨hk.ioi, o, hk.s, ho, ht, hr, Or.inr (Or.inl ?_)⟩
+      cases hk
+      simp_all
+
+theorem txOp_putTx (s : St) (b : Block) (tpre : List Tx) (tx : Tx) (h : Nat) (r : TxRec) :
+    TxOp s b tpre tx (.putTx h r) → tx.hash = h ∧ r = ⟨b.number, tpre.length, tx⟩ := by
+  unfold TxOp
+  rw [mem_txIns, mem_txOuts]
+  rintro (⟨ii, i, p, o, k, _, _, _, _, _, h⟩ | ⟨oi, o, k, _, _, _, h⟩)
+  · simp only [IsInOp, Op.putTx.injEq, reduceCtorEq, false_or] at h
+    exact ⟨h.1.symm, h.2⟩
+  · simp only [IsOutOp, Op.putTx.injEq, reduceCtorEq, false_or] at h
+    exact ⟨h.1.symm, h.2⟩
+
+theorem txOp_putTx_of_output (s : St) (b : Block) (tpre : List Tx) (tx : Tx) (oi : Nat)
+    (o : Output) (k : SKey) (ho : tx.outputs[oi]? = some o) (ht : Touches k o)
+    (hr : registered s k = true) :
+    TxOp s b tpre tx (.putTx tx.hash ⟨b.number, tpre.length, tx⟩) :=
+  Or.inr ((mem_txOuts _ _ _ _ _).mpr ⟨oi, o, k, ho, ht, hr, Or.inr (Or.inr rfl)⟩)
+
+/-! ### `filterBlock`, keyspace by keyspace -/
+
+theorem filterBlock_scripts (s : St) (b : Block) : (filterBlock s b).scripts = s.scripts := by
+  obtain ⟨hdr, hh, e⟩ := filterBlock_eq s b
+  rw [e]
+  apply foldl_applyOp_scripts
+  intro k bn hm
+  rcases List.mem_append.mp hm with hm | hm
+  · rcases blockOps_kinds hm with ⟨_, _, h⟩ | ⟨_, h⟩ | ⟨_, _, h⟩ | ⟨_, _, h⟩ <;> cases h
+  · obtain ⟨_, _, h⟩ := hh _ hm
+    cases h
+
+theorem filterBlock_registered (s : St) (b : Block) (k : SKey) :
+    registered (filterBlock s b) k = registered s k := by
+  unfold registered
+  rw [filterBlock_scripts]
+
+theorem filterBlock_txs_unch (s : St) (b : Block) (h : Nat)
+    (hp : ∀ r, Op.putTx h r ∉ blockOps s b) :
+    lookup (filterBlock s b).txs h = lookup s.txs h := by
+  obtain ⟨hdr, hh, e⟩ := filterBlock_eq s b
+  rw [e]
+  apply txs_lookup_unch
+  intro r hm
+  rcases List.mem_append.mp hm with hm | hm
+  · exact hp r hm
+  · obtain ⟨_, _, h⟩ := hh _ hm
+    cases h
+
+theorem filterBlock_txs_put (s : St) (b : Block) (h : Nat) (r : TxRec)
+    (hex : Op.putTx h r ∈ blockOps s b) (hp : ∀ r', Op.putTx h r' ∈ blockOps s b → r' = r) :
+    lookup (filterBlock s b).txs h = some r := by
+  obtain ⟨hdr, hh, e⟩ := filterBlock_eq s b
+  rw [e]
+  apply txs_lookup_put
+  · exact List.mem_append_left _ hex
+  · intro r' hm
+    rcases List.mem_append.mp hm with hm | hm
+    · exact hp r' hm
+    · obtain ⟨_, _, h⟩ := hh _ hm
+      cases h
+
+theorem filterBlock_hist_unch (s : St) (b : Block) (k : HistKey)
+    (hp : ∀ h, Op.putHist k h ∉ blockOps s b) :
+    lookup (filterBlock s b).hist k = lookup s.hist k := by
+  obtain ⟨hdr, hh, e⟩ := filterBlock_eq s b
+  rw [e]
+  apply hist_lookup_unch
+  · intro r hm
+    rcases List.mem_append.mp hm with hm | hm
+    · exact hp r hm
+    · obtain ⟨_, _, h⟩ := hh _ hm
+      cases h
+  · intro hm
+    rcases List.mem_append.mp hm with hm | hm
+    · rcases blockOps_kinds hm with ⟨_, _, h⟩ | ⟨_, h⟩ | ⟨_, _, h⟩ | ⟨_, _, h⟩ <;> cases h
+    · obtain ⟨_, _, h⟩ := hh _ hm
+      cases h
+
+theorem filterBlock_hist_put (s : St) (b : Block) (k : HistKey) (h : Nat)
+    (hex : Op.putHist k h ∈ blockOps s b) (hp : ∀ h', Op.putHist k h' ∈ blockOps s b → h' = h) :
+    lookup (filterBlock s b).hist k = some h := by
+  obtain ⟨hdr, hh, e⟩ := filterBlock_eq s b
+  rw [e]
+  apply hist_lookup_put
+  · exact List.mem_append_left _ hex
+  · intro r' hm
+    rcases List.mem_append.mp hm with hm | hm
+    · exact hp r' hm
+    · obtain ⟨_, _, h⟩ := hh _ hm
+      cases h
+  · intro hm
+    rcases List.mem_append.mp hm with hm | hm
+    · rcases blockOps_kinds hm with ⟨_, _, h⟩ | ⟨_, h⟩ | ⟨_, _, h⟩ | ⟨_, _, h⟩ <;> cases h
+    · obtain ⟨_, _, h⟩ := hh _ hm
+      cases h
+
+theorem not_putCell_hdr {hdr : List Op} (hh : ∀ op ∈ hdr, ∃ bn h, op = Op.putHeader bn h)
+    (k : CellKey) (h : Nat) : Op.putCell k h ∉ hdr := by
+  intro hm
+  obtain ⟨_, _, e⟩ := hh _ hm
+  cases e
+
+theorem not_delCell_hdr {hdr : List Op} (hh : ∀ op ∈ hdr, ∃ bn h, op = Op.putHeader bn h)
+    (k : CellKey) : Op.delCell k ∉ hdr := by
+  intro hm
+  obtain ⟨_, _, e⟩ := hh _ hm
+  cases e
+
+/-- no cell is created under `k`, one is deleted: gone -/
+theorem filterBlock_cells_noput_del (s : St) (b : Block) (k : CellKey)
+    (hp : ∀ h, Op.putCell k h ∉ blockOps s b) (hd : Op.delCell k ∈ blockOps s b) :
+    lookup (filterBlock s b).cells k = none := by
+  obtain ⟨hdr, hh, e⟩ := filterBlock_eq s b
+  rw [e]
+  apply cells_lookup_del
+  · exact List.mem_append_left _ hd
+  · intro h hm
+    rcases List.mem_append.mp hm with hm | hm
+    · exact hp h hm
+    · exact not_putCell_hdr hh _ _ hm
+
+/-- no write mentions `k`: unchanged -/
+theorem filterBlock_cells_unch (s : St) (b : Block) (k : CellKey)
+    (hp : ∀ h, Op.putCell k h ∉ blockOps s b) (hd : Op.delCell k ∉ blockOps s b) :
+    lookup (filterBlock s b).cells k = lookup s.cells k := by
+  obtain ⟨hdr, hh, e⟩ := filterBlock_eq s b
+  rw [e]
+  apply cells_lookup_unch
+  · intro h hm
+    rcases List.mem_append.mp hm with hm | hm
+    · exact hp h hm
+    · exact not_putCell_hdr hh _ _ hm
+  · intro hm
+    rcases List.mem_append.mp hm with hm | hm
+    · exact hd hm
+    · exact not_delCell_hdr hh _ hm
+
+theorem putCell_txOuts {s : St} {bn txi : Nat} {tx : Tx} {k : CellKey} {h : Nat}
+    (hm : Op.putCell k h ∈ txOuts s bn txi tx) : h = tx.hash := by
+  obtain ⟨oi, o, k', _, _, _, hop⟩ := (mem_txOuts _ _ _ _ _).mp hm
+  simp only [IsOutOp, Op.putCell.injEq, reduceCtorEq, or_false] at hop
+  exact hop.2
+
+theorem not_delCell_txOuts (s : St) (bn txi : Nat) (tx : Tx) (k : CellKey) :
+    Op.delCell k ∉ txOuts s bn txi tx := by
+  intro hm
+  obtain ⟨oi, o, k', _, _, _, hop⟩ := (mem_txOuts _ _ _ _ _).mp hm
+  simp [IsOutOp] at hop
+
+/-- a cell created by transaction `tx` of the block: it is in the index afterwards iff no later
+transaction of the block deletes it -/
+theorem filterBlock_cells_created (s : St) (b : Block) (tpre tpost : List Tx) (tx : Tx)
+    (hb : b.txs = tpre ++ tx :: tpost) (k : CellKey)
+    (hput : Op.putCell k tx.hash ∈ txOuts s b.number tpre.length tx)
+    (hnoput : ∀ h', Op.putCell k h' ∉
+      blockOps.go s b (tpre.length + 1) (accB b.number 0 [] (tpre ++ [tx])) tpost) :
+    (Op.delCell k ∈ blockOps.go s b (tpre.length + 1) (accB b.number 0 [] (tpre ++ [tx])) tpost →
+      lookup (filterBlock s b).cells k = none) ∧
+    (Op.delCell k ∉ blockOps.go s b (tpre.length + 1) (accB b.number 0 [] (tpre ++ [tx])) tpost →
+      lookup (filterBlock s b).cells k = some tx.hash) := by
+  obtain ⟨hdr, hh, e⟩ := filterBlock_eq s b
+  rw [e, blockOps_split s b tpre tpost tx hb]
+  generalize blockOps.go s b (tpre.length + 1) (accB b.number 0 [] (tpre ++ [tx])) tpost = P
+    at hnoput ⊢
+  generalize blockOps.go s b 0 [] tpre = A
+  generalize txIns s b.number tpre.length (accB b.number 0 [] tpre) tx = I
+  have hre : A ++ (I ++ (txOuts s b.number tpre.length tx ++ P)) ++ hdr =
+      (A ++ I) ++ (txOuts s b.number tpre.length tx ++ (P ++ hdr)) := by
+    simp only [List.append_assoc]
+  rw [hre, List.foldl_append, List.foldl_append]
+  generalize List.foldl applyOp s (A ++ I) = s1
+  have h2 : lookup (List.foldl applyOp s1 (txOuts s b.number tpre.length tx)).cells k =
+      some tx.hash :=
+    cells_lookup_put _ _ _ _ hput (fun h' hm => putCell_txOuts hm) (not_delCell_txOuts _ _ _ _ _)
+  have hnp : ∀ h', Op.putCell k h' ∉ P ++ hdr := by
+    intro h' hm
+    rcases List.mem_append.mp hm with hm | hm
+    · exact hnoput h' hm
+    · exact not_putCell_hdr hh _ _ hm
+  constructor
+  · intro hd
+    exact cells_lookup_del _ _ _ (List.mem_append_left _ hd) hnp
+  · intro hd
+    rw [cells_lookup_unch _ _ _ hnp, h2]
+    intro hm
+    rcases List.mem_append.mp hm with hm | hm
+    · exact hd hm
+    · exact not_delCell_hdr hh _ hm
+
 end Index
